@@ -66,6 +66,7 @@ func structOf(al *ssa.Alloc) *types.Struct {
 
 func runC33(c *Ctx) {
 	w := c.W
+	c33Extras(c)
 	var methods []*ssa.Function
 	for _, f := range c33Files {
 		for _, fn := range w.FuncsInFile(f) {
